@@ -284,6 +284,49 @@ def switches():
                 init = {"var": [SET(v0, NUM(val))], "X": [SET(VAR('X'), NUM(val))], "and": [SET(v0, NUM(val + 8))], "plus": [SET(v0, NUM((val - 1) % 256))],
                         "el": [SET(('idx', 'a0', NUM(1)), NUM(val))], "shift": [SET(v0, NUM(val * 2 + 1))]}[sn]
                 pk.add([SET(R(k), NUM(0))] + init + [('switch', sel, cases, [SET(R(k), NUM(99))])])
+    # a switch inside loops: `break` leaves the switch, `continue` goes to the update of the loop AROUND the switch —
+    # the innermost one when loops are nested (for / while / do-while as inner and as outer loop)
+    v1, v2, v3 = VAR('v1'), VAR('v2'), VAR('v3')
+    def loop(kind, var, n, body):
+        if kind == "for":
+            return [('for', ('asg', var, NUM(0)), ('cmp', '<', var, NUM(n)), ('post', '++', var), ('block', body))]
+        if kind == "while":
+            return [SET(var, NUM(0)), ('while', ('cmp', '<', var, NUM(n)), ('block', [('expr', ('post', '++', var))] + body))]
+        return [SET(var, NUM(0)), ('dowhile', ('block', [('expr', ('post', '++', var))] + body), ('cmp', '<', var, NUM(n)))]
+    for outer in ("for", "while", None):
+        for inner in ("for", "while"):
+            for skip in (0, 1, 2):
+                k = pk.cell(); k2 = pk.cell()
+                body = [('switch', v2, [([skip], [('continue',)]), ([7], [('break',)])], [('expr', ('post', '++', R(k2)))]),
+                        ('expr', ('post', '++', R(k)))]
+                prog = loop(inner, v2, 3, body)
+                if outer:
+                    prog = loop(outer, v1, 2, prog)
+                pk.add([SET(R(k), NUM(0)), SET(R(k2), NUM(0))] + prog, weight=6)
+    pk.flush()
+    return pk.programs
+
+
+# ----------------------------------------------------------------------------------------------- F4b
+
+def restore():
+    """the same constant stored twice, a statement in between that changes the flags but not the accumulator, and a
+    truth test of the second variable on the next source line: whether the second `LDA #k` may go depends on what
+    follows it (with --insert_code a listing comment follows)"""
+    pk = Pack("restore", cap=24, shorts=False)
+    v0, v1, v2, X, Y = VAR('v0'), VAR('v1'), VAR('v2'), VAR('X'), VAR('Y')
+    disturb = [('expr', ('post', '--', v1)), ('expr', ('post', '++', v1)), SET(X, NUM(1)), SET(Y, NUM(0)), ('expr', ('post', '++', X)),
+               ('expr', ('post', '--', Y)), SET(X, v1), ('expr', ('pre', '++', ('idx', 'a0', NUM(1))))]
+    for kval in (0, 1, 255):
+        for start in (0, 1, 5):
+            for d in disturb:
+                for test in ("if", "ifnot", "tern", "while"):
+                    k = pk.cell()
+                    t = {"if": [('if', v2, SET(R(k), NUM(1)), SET(R(k), NUM(2)))],
+                         "ifnot": [('if', ('not', v2), SET(R(k), NUM(1)), SET(R(k), NUM(2)))],
+                         "tern": [SET(R(k), ('tern', v2, NUM(1), NUM(2)))],
+                         "while": [SET(R(k), NUM(0)), ('while', v2, ('block', [SET(v2, NUM(0)), SET(R(k), NUM(7))]))]}[test]
+                    pk.add([SET(v1, NUM(start)), SET(X, NUM(start)), SET(Y, NUM(start)), SET(v0, NUM(kval)), d, SET(v2, NUM(kval))] + t)
     pk.flush()
     return pk.programs
 
@@ -736,12 +779,55 @@ def signed_values():
     return progs
 
 
+# ----------------------------------------------------------------------------------------------- F13
+
+def explicit():
+    """load(e) / store(v) between ordinary statements: what the generator believes about the accumulator and the
+    flags around them. The twin spells `load(e); …; store(v);` as `t = e; …; v = t;` (CV.CSem has no accumulator)."""
+    progs = []
+    v1, v2, v3, X, Y, t0 = VAR('v1'), VAR('v2'), VAR('v3'), VAR('X'), VAR('Y'), VAR('v0')
+
+    def emit(name, real, twin):
+        def build(stmts):
+            pk = Pack("explicit-" + name, cap=3, shorts=False)
+            pk.cell(); pk.cell(); pk.cell()
+            pk.add(stmts + [SET(t0, NUM(0))])
+            pk.flush()
+            return pk.programs[0]
+        a = build(real)
+        a.oracle = build(twin)
+        progs.append(a)
+
+    raw = lambda t: ('raw', t)
+    for val in (0, 5, 200):
+        setup = [SET(v2, NUM(val)), SET(v3, NUM(2)), SET(X, NUM(3)), SET(Y, NUM(1)), SET(v1, NUM(9))]
+        loads = [("k", "load(%d);" % val, NUM(val)), ("v", "load(v2);", v2), ("sum", "load(v2 + 1);", ('bin', '+', v2, NUM(1))),
+                 ("X", "load(X);", X), ("and", "load(v2 & 4);", ('bin', '&', v2, NUM(4)))]
+        disturbs = [("none", []), ("Y0", [SET(Y, NUM(0))]), ("Y1", [SET(Y, NUM(1))]), ("incX", [('expr', ('post', '++', X))]),
+                    ("dec", [('expr', ('post', '--', v3))]), ("decY", [('expr', ('post', '--', Y))])]
+        for ln, lt, le in loads:
+            for dn, d in disturbs:
+                # the stored value tested right behind the store; the disturbed register tested right behind the load
+                emit("%s-%s-store-test" % (ln, dn), setup + [raw(lt)] + d + [raw("store(v1);"), verdict(0, v1)],
+                     setup + [SET(t0, le)] + d + [SET(v1, t0), verdict(0, v1)])
+                if d:
+                    reg = d[0][1][2] if d[0][0] == 'expr' and d[0][1][0] == 'post' else d[0][1][1]
+                    emit("%s-%s-reg-test" % (ln, dn), setup + d + [raw(lt), raw("store(v1);"), verdict(0, reg)],
+                         setup + d + [SET(t0, le), SET(v1, t0), verdict(0, reg)])
+            # in the body of loops whose test follows the explicit statement
+            emit("%s-dowhile" % ln, setup + [('dowhile', ('block', [raw(lt), raw("store(v1);"), ('expr', ('post', '--', v3))]), v3)],
+                 setup + [('dowhile', ('block', [SET(t0, le), SET(v1, t0), ('expr', ('post', '--', v3))]), v3)])
+            emit("%s-for" % ln, setup + [('for', ('asg', v3, NUM(0)), ('cmp', '<', v3, NUM(2)), ('post', '++', v3), ('block', [raw(lt), raw("store(v1);")]))],
+                 setup + [('for', ('asg', v3, NUM(0)), ('cmp', '<', v3, NUM(2)), ('post', '++', v3), ('block', [SET(t0, le), SET(v1, t0)]))])
+    return progs
+
+
 # ----------------------------------------------------------------------------------------------- all
 
 def all_programs(families=None):
     fams = {"update-then-test": update_then_test, "update-then-loop": update_then_loop, "comparisons": comparisons,
-            "folded": folded_comparisons, "far": far_branches, "switch": switches, "triples": triples,
-            "precedence": precedence, "loop-headers": loop_headers, "wide": wide, "nested": nested, "calls": calls, "pointers": pointers, "scopes": scopes, "signed": signed_values}
+            "folded": folded_comparisons, "far": far_branches, "switch": switches, "triples": triples, "restore": restore,
+            "precedence": precedence, "loop-headers": loop_headers, "wide": wide, "nested": nested, "calls": calls, "pointers": pointers, "scopes": scopes, "signed": signed_values, "explicit": explicit}
     out = []
     for n, f in fams.items():
         if families is None or n in families:
